@@ -70,7 +70,7 @@ type Finding struct {
 	Msg      string            `json:"msg"`
 	Key      string            `json:"key"`
 	Count    int               `json:"count"`
-	Model    map[string]uint64 `json:"model,omitempty"`
+	Model    map[string]uint64 `json:"model"`
 	Vector   []VecEntry        `json:"vector"`
 	Observes []ObsEntry        `json:"observes,omitempty"`
 	Prefix   []int             `json:"prefix"`
@@ -274,6 +274,21 @@ func runJob(prog *ssa.Program, spec *RunSpec, job *JobSpec) *JobResult {
 	if job.Prefix != nil {
 		workers = 1
 	}
+	stopProg := make(chan struct{})
+	go func() {
+		tk := time.NewTicker(15 * time.Second)
+		defer tk.Stop()
+		for {
+			select {
+			case <-stopProg:
+				return
+			case <-tk.C:
+				mu.Lock()
+				fmt.Fprintf(os.Stderr, "  .. %s: paths=%d work=%d kinds=%v elapsed=%.0fs\n", job.Name, jr.Paths, len(work), jr.Kinds, time.Since(t1).Seconds())
+				mu.Unlock()
+			}
+		}
+	}()
 	for w := 0; w < workers; w++ {
 		wg.Add(1)
 		go func(wid int) {
@@ -393,6 +408,7 @@ func runJob(prog *ssa.Program, spec *RunSpec, job *JobSpec) *JobResult {
 		}(w)
 	}
 	wg.Wait()
+	close(stopProg)
 	jr.SolverS = soltime.Seconds()
 	for _, f := range findings {
 		jr.Findings = append(jr.Findings, f)
